@@ -30,6 +30,7 @@ namespace GeographicLib {
       return;
     }
     lon = Math::AngNormalize(lon); // lon in [-180,180)
+    if (lon == Math::hd) lon = -Math::hd;
     if (lat == Math::qd) lat *= (1 - numeric_limits<real>::epsilon() / 2);
     prec = max(-1, min(int(maxprec_), prec));
     if (prec == 1) ++prec;      // Disallow prec = 1
